@@ -14,6 +14,7 @@ Record case17 := Case17 {
   q_gated : list (nat * nat * robs17);   (* (batch index, micro-state index, observation) in schedule order *)
   q_free : list (list robs17);      (* per reader goroutine: its observations in program order *)
   q_synced : list bool;             (* after a writer's Sync returned: each header it had appended is readable *)
+  q_del : option (N * oobs);        (* mode 2: the deleter's DeleteRange(Tail, to) and its outcome *)
   q_final : probe }.
 
 Definition robs17_eqb (a b : robs17) : bool :=
@@ -39,7 +40,18 @@ Definition agree17 (x : case17) : bool :=
   let c := chain_of (q_chain x) in
   let s0 := init_state c (q_batch x) (q_init x) in
   let q := map (map c) (q_queue x) in
-  if 2 <=? q_mode x then true else
+  if 2 <=? q_mode x then
+    (* free writers + deleter: the sequential model "the appends, Sync, then DeleteRange(Tail, to)"
+       reproduces the outcome and the final probe *)
+    match q_del x with
+    | Some (to, out) =>
+      let s1 := sync (seq_run s0 q) in
+      let T := match tailp s1 with Some h => h_height h | None => 0 end in
+      let '(s2, _, r) := step s1 (ODelete T to 0 []) in
+      oobs_eqb (oob r) out && model_probe_ok c s2 (q_final x)
+    | None => false
+    end
+  else
   forallb (fun g => match micro_at s0 q (fst (fst g)) (snd (fst g)) with
                     | Some s => robs17_eqb (observe17 s) (snd g)
                     | None => false end) (q_gated x)
@@ -72,8 +84,17 @@ Definition ok17 (x : case17) : bool :=
   && forallb (monotone17 None) (q_free x)
   && gap_free (q_final x)
   && forallb (fun b => b) (q_synced x)
-  && (if 2 <=? q_mode x then true
-      else spec_probe_ok c (fold_left spec_append (q_queue x) (spec_append spec0 (q_init x))) (q_final x)).
+  && (let sp := fold_left spec_append (q_queue x) (spec_append spec0 (q_init x)) in
+      if 2 <=? q_mode x then
+        (* the deleter's result is nil and the final reads are those of the specification state
+           "delete after the appends" (= "delete, then the appends": C17_delete_race_order_irrelevant):
+           no append lost, nothing below [to] left, Tail = to *)
+        match q_del x, sHT sp with
+        | Some (to, out), Some (T, _) =>
+          oobs_eqb out OOk && spec_probe_ok c (fst (spec_delete sp T to None)) (q_final x)
+        | _, _ => false
+        end
+      else spec_probe_ok c sp (q_final x)).
 
 Definition chk17 (x : case17) : bool * bool * N := (agree17 x, ok17 x, 0).
 
